@@ -201,8 +201,9 @@ fn op_strategy() -> impl Strategy<Value = Op> {
         1 => crate::props::c16::string_strategy().prop_map(Op::GrowString),
         1 => any::<u32>().prop_map(Op::GrowThread),
         3 => Just(Op::Flush),
-        4 => (any::<u32>(), any::<u32>(), any::<u32>()).prop_map(|(ty, size, rva)| Op::FlushEntry { ty, size, rva }),
-        2 => (any::<u32>(), any::<u32>(), any::<u32>()).prop_map(|(ty, size, rva)| Op::EntryOnly { ty, size, rva }),
+        // entries of empty streams (size 0, type/rva set) and all-zero placeholder entries occur in real dumps
+        4 => (prop_oneof![1 => Just(0u32), 4 => any::<u32>()], prop_oneof![2 => Just(0u32), 3 => any::<u32>()], prop_oneof![1 => Just(0u32), 4 => any::<u32>()]).prop_map(|(ty, size, rva)| Op::FlushEntry { ty, size, rva }),
+        2 => (prop_oneof![1 => Just(0u32), 4 => any::<u32>()], prop_oneof![2 => Just(0u32), 3 => any::<u32>()], prop_oneof![1 => Just(0u32), 4 => any::<u32>()]).prop_map(|(ty, size, rva)| Op::EntryOnly { ty, size, rva }),
     ]
 }
 
@@ -224,6 +225,9 @@ pub struct DumpCase {
     pub p0: P0,
     /// inject an I/O error at this destination call (None = fault free)
     pub fail_at: Option<u8>,
+    /// start the target with an empty environment / no arguments (empty raw streams)
+    #[serde(default)]
+    pub empty_env: bool,
 }
 
 /// Dump level: whole dumps into a pre-filled destination positioned anywhere.
@@ -233,7 +237,11 @@ pub fn check_dump(c: &DumpCase) -> Verdict {
     use crate::vcore::world::*;
     init_scratch();
     let scratch = Target::new_scratch();
-    let bt = crate::props::c01::build(&c.scenario, &scratch);
+    let mut bt = crate::props::c01::build(&c.scenario, &scratch);
+    if c.empty_env {
+        bt.spec.env.clear();
+        bt.spec.argv.clear();
+    }
     let t = match Target::spawn(&bt.spec, scratch) {
         Ok(t) => t,
         Err(e) => return Verdict::Inconclusive(format!("target setup: {}", e.split(':').next().unwrap_or(""))),
@@ -282,6 +290,9 @@ pub fn check_dump(c: &DumpCase) -> Verdict {
                 bad!("final-position", "destination position {} expected {}", dest.pos(), lo + img.len());
             }
             classes.push("success".to_string());
+            if c.empty_env {
+                classes.push("empty-raw-streams".to_string());
+            }
         }
         DumpOutcome::Err(_) => {
             // aborted: what was written (from p0 on) must be a prefix-consistent image (C10's predicate)
@@ -316,8 +327,8 @@ pub fn run(ctx: &mut LaneCtx) {
             name: "dump-level",
             cases: (160, 10_000),
             rule: "whole dumps of generated targets (C01 scenarios) into a destination pre-filled with random bytes and positioned at 0/1/mid/len/beyond, fault free or with an I/O error injected at a generated destination call; oracle = on success destination[p0..p0+len) equals the returned image, nothing before p0 or beyond the image changes, final position p0+len; on abort nothing before p0 changes and what was written is a consistent truncated image; non-trivial = p0 > 0; distinct = hash of case",
-            strategy: (crate::props::c01::case_strategy(6), proptest::collection::vec(any::<u8>(), 0..5000), prop_oneof![Just(P0::Zero), Just(P0::One), Just(P0::Mid), Just(P0::Len), (0u8..40).prop_map(P0::Beyond)], proptest::option::weighted(0.4, any::<u8>()))
-                .prop_map(|(scenario, prefill, p0, fail_at)| DumpCase { scenario, prefill, p0, fail_at })
+            strategy: (crate::props::c01::case_strategy(6), proptest::collection::vec(any::<u8>(), 0..5000), prop_oneof![Just(P0::Zero), Just(P0::One), Just(P0::Mid), Just(P0::Len), (0u8..40).prop_map(P0::Beyond)], proptest::option::weighted(0.4, any::<u8>()), any::<bool>())
+                .prop_map(|(scenario, prefill, p0, fail_at, empty_env)| DumpCase { scenario, prefill, p0, fail_at, empty_env })
                 .boxed(),
             max_shrink_iters: 100,
             log_current: true,
